@@ -2113,9 +2113,7 @@ def _run(prop, rng=None, trace=None):
                     world.dropped.add(op["t"])
                     if config.get("really_drop", True):
                         world.gone.add(op["t"])
-                        del world.lists[op["t"]]
-                        import gc
-                        gc.collect()
+                        del world.lists[op["t"]]       # no reference cycles: freed by refcount at once
                 ops_done.append(op)
                 continue
             if not _valid(world, op):
